@@ -118,6 +118,7 @@ type input struct {
 	Header *string           `json:"header"` // nil = no user header
 	Rbac   rbacSpec          `json:"rbac"`
 	Query  map[string]string `json:"query"`
+	Query2 map[string]string `json:"query2,omitempty"` // a second value of a repeated query parameter (?namespace=a&namespace=b)
 	Body   *string           `json:"body"`
 	World  worldSpec         `json:"world"`
 }
@@ -128,7 +129,7 @@ func (c20) Name() string      { return "c20" }
 func (c20) CoqModule() string { return "C20" }
 func (c20) Rule() string {
 	return "routes of cmd/ui/v1beta1/main.go round-robin; per case: user header (absent 15%, 'alice', ':' = empty user), RBAC oracle (deny all 15%, every verb in namespace " +
-		"'mine' 45%, allow all 15%, read-only member of 'mine' = get/list/watch only 25%), query parameters namespace in {mine, victim, kubeflow, other, '', absent} and object names (existing in that namespace, " +
+		"'mine' 45%, allow all 15%, read-only member of 'mine' = get/list/watch only 25%), query parameters namespace in {mine, victim, kubeflow, other, '', absent} (one request in six repeats the parameter with another value) and object names (existing in that namespace, " +
 		"existing elsewhere, unknown, absent), JSON bodies for the POST routes (well formed, missing fields, malformed), cluster state (which namespaces hold " +
 		"templates, 0-3 trials, the k-th API call fails, DB manager fails, delayed experiment deletion). Non-trivial: the request reached an authorisation " +
 		"decision or an API access (the trace has at least one event). Distinct: by (route, request, oracle, cluster state)."
@@ -190,6 +191,10 @@ func (c c20) Gen(r *rand.Rand, i, n int) any {
 	ns := pickW(r, []string{"mine", "victim", "kubeflow", "other", "", "-"}, []int{52, 25, 8, 4, 5, 6})
 	if ns != "-" {
 		in.Query["namespace"] = ns
+		if r.Intn(6) == 0 {
+			// the parameter is given twice: only the first value is the one the review is made for
+			in.Query2 = map[string]string{"namespace": kit.Pick(r, []string{"victim", "mine", "kubeflow"})}
+		}
 	}
 	objNs := ns
 	switch r.Intn(10) {
@@ -303,6 +308,9 @@ func (c c20) Run(inp any) kit.Case {
 	for k, v := range in.Query {
 		q.Set(k, v)
 	}
+	for k, v := range in.Query2 {
+		q.Add(k, v)
+	}
 	target := in.Route
 	if len(q) > 0 {
 		target += "?" + q.Encode()
@@ -373,7 +381,10 @@ func (c c20) Run(inp any) kit.Case {
 	for k, v := range in.Query {
 		params = append(params, [2]string{k, v})
 	}
-	sort.Slice(params, func(i, j int) bool { return params[i][0] < params[j][0] })
+	for k, v := range in.Query2 { // after the first values: a lookup takes the first
+		params = append(params, [2]string{k, v})
+	}
+	sort.SliceStable(params, func(i, j int) bool { return params[i][0] < params[j][0] })
 
 	pair := func(p [2]string) string { return kit.Pair(kit.Str(p[0]), kit.Str(p[1])) }
 	reqC := kit.Rec("Req", kit.Str(hdr), kit.Str(user), kit.ListOf(params, pair), kit.ListOf(keys, kit.Str), kit.ListOf(fields, pair), kit.ListOf(libfail, kit.Str))
